@@ -308,3 +308,86 @@ def run(m):
     v = r["violations"]
     return {"failing": bool(v), "witness": v[0]["witness"] if v else "isolation", "call": v[0]["source"] if v else "caller/partial sweep", "result": v[0]["got"] if v else "ok"}
 '''
+
+
+# ---- "a rendered template cannot use the include tag" -- wherever the tag sits: the check
+# ---- for disabled tags is made by Node.render / render_async, so every container must render its
+# ---- children THROUGH them (never through render_to_output directly).  BlockNode is the container
+# ---- under every if/for/case/capture body; both twins, blank-suppressed or not.
+
+REPLAY_NESTED_INCLUDE = r'''
+def run(m):
+    import asyncio
+    from liquid import Environment, DictLoader
+    from liquid.exceptions import DisabledTagError
+    env = Environment(loader=DictLoader({"inc": "INC", "p1": "{% if true %}{% include 'inc' %}{% endif %}", "p2": "{% for i in (1..1) %}{% include 'inc' %}{% endfor %}",
+                                         "p3": "{% capture c %}{% include 'inc' %}{% endcapture %}{{ c }}", "p4": "{% include 'inc' %}"}))
+    got = []
+    for p in ("p1", "p2", "p3", "p4"):
+        t = env.from_string("{% render '" + p + "' %}")
+        for a in (False, True):
+            try:
+                got.append((p, a, asyncio.run(t.render_async()) if a else t.render()))
+            except DisabledTagError:
+                pass
+    return {"violated": bool(got), "observed": got[:4], "witness": "include-inside-a-block-of-a-rendered-partial"}
+'''
+
+for _sfx in ("", "_async"):
+    for _blank in (False, True):
+        def _mkblock(sfx, blank):
+            @contract("liquid.ast:BlockNode.render_to_output" + sfx, prop="C15", name=f"BlockNode.render_to_output{sfx}[blank-suppressed={blank}: every child is rendered through Node.render{sfx}, which checks disabled tags]")
+            def bn(c):
+                env = mk_env(c, suppress_blank_control_flow_blocks=VBool(z3.BoolVal(blank)))
+                ctx = mk_ctx(c, env)
+                kids = [c.obj("liquid.ast:Node", f"child{i}", token=NONE, blank=c.bool(f"child{i}_blank")) for i in range(2)]
+                self = c.obj("liquid.ast:BlockNode", "block", token=NONE, nodes=c.st.alloc(HList(items=list(kids))), blank=VBool(z3.BoolVal(blank)))
+
+                def via(kind):
+                    def f(eng, st, a, k):
+                        st.log.append((kind, a[0], a[1]))
+                        return [(st, VInt(z3.Int(f"chars_{len(st.log)}")))]
+                    return f
+                for n_ in ("render", "render_async"):
+                    c.summary("liquid.ast:Node." + n_, via("checked"))
+                for n_ in ("render_to_output", "render_to_output_async"):
+                    c.summary("liquid.ast:Node." + n_, via("unchecked"))
+                c.eager_generators = True
+                c.call(ctx, c.obj("io:StringIO", "buffer", __text__=c.str("out")), self_val=self)
+
+                def post(r):
+                    calls = [e for e in r.st.log if e[0] in ("checked", "unchecked")]
+                    return z3.BoolVal([(e[0], e[1], e[2]) for e in calls] == [("checked", k, ctx) for k in kids])
+                c.ensures("each-child-once-in-order-through-the-checking-entry-point-with-this-context", post)
+                c.raises()
+                c.replay("code", code=REPLAY_NESTED_INCLUDE)
+        _mkblock(_sfx, _blank)
+
+
+@structural("C15", "children-render-through-the-checking-entry-point")
+def children_render_checked():
+    """no code renders a node through render_to_output / render_to_output_async directly except
+    Node.render / Node.render_async themselves (which check the context's disabled tags first)"""
+    import ast
+    from pyvc import flow, load
+    obs = []
+    n = 0
+    for m in load.all_modules():
+        mod = load.get_module(m)
+        pm = None
+        for call in flow.calls(mod.tree):
+            if not (isinstance(call.func, ast.Attribute) and call.func.attr in ("render_to_output", "render_to_output_async")):
+                continue
+            pm = pm or flow.parents(mod.tree)
+            fns = flow.enclosing(pm, call, (ast.FunctionDef, ast.AsyncFunctionDef))
+            cls = flow.enclosing(pm, call, (ast.ClassDef,))
+            where = f"{m.split('.', 1)[-1]}:{(cls[0].name + '.') if cls else ''}{fns[0].name if fns else '?'}@{call.lineno}"
+            n += 1
+            ok = m == "liquid.ast" and cls and cls[0].name == "Node" and fns and fns[0].name in ("render", "render_async") and flow.dotted(call.func.value) == "self"
+            # super().render_to_output(...) inside an override of the same method is the node itself, not a child
+            ok = ok or (flow.dotted(call.func.value).startswith("super()") and fns and fns[0].name == call.func.attr)
+            # the default async method falls back to the node's OWN sync method (not a child either)
+            ok = ok or (flow.dotted(call.func.value) == "self" and fns and fns[0].name == "render_to_output_async" and call.func.attr == "render_to_output")
+            obs.append(flow.ob(f"{where}:only-Node.render-calls-render_to_output", bool(ok), ast.unparse(call)[:80], replay_schema="code", replay_extra={"code": REPLAY_NESTED_INCLUDE}))
+    obs.append(flow.ob("render_to_output-call-sites-found", n >= 2, f"{n}"))
+    return obs
